@@ -204,6 +204,11 @@ package message
 //@   monitor handlersLock guards handlers
 //@   monitor closedLock guards closed
 //@   invariant r.handlers != nil [mon:handlersLock:handlers-map-exists]
+//@   invariant forall k string :: has(r.handlers, k) ==> r.handlers[k] != nil && r.handlers[k].name == k && r.handlers[k].startedCh != nil && (!r.handlers[k].started ==> !closed(r.handlers[k].startedCh)) [mon:handlersLock:registered-handlers-are-well-formed]
+
+//@ type handler
+//@   self h
+//@   ownschan startedCh, stopped
 
 //@ spec routerBuilt(r *Router) bool := r != nil && r.handlersLock != nil && r.handlersWg != nil && r.runningHandlersWg != nil && r.runningHandlersWgLock != nil && r.middlewaresLock != nil && r.handlerAdded != nil && r.closingInProgressCh != nil && r.closedCh != nil && r.running != nil
 
@@ -407,3 +412,25 @@ package message
 //@   ensures ret(SS, 1, old(calls(SS))) == nil ==> result1 == nil && result0 != nil && fresh(result0) && spawned("(*messageTransformSubscriberDecorator).Subscribe$1") == old(spawned("(*messageTransformSubscriberDecorator).Subscribe$1")) + 1 [one-pump-started-on-a-fresh-output-channel]
 //@   panics-ensures panicked(SS, old(calls(SS)))
 //@   modifies wg(t.subscribeWg)
+
+// ---- lifecycle (C10, C06) ----
+
+//@ func (*Router).RunHandlers$1
+//@   requires r != nil && h != nil
+
+//@ func (*Router).RunHandlers
+//@   requires r != nil && r.handlersLock != nil && r.middlewaresLock != nil && r.handlersWg != nil && ctx != nil
+//@   requires forall i int :: 0 <= i && i < len(r.publisherDecorators) ==> r.publisherDecorators[i] != nil
+//@   requires forall i int :: 0 <= i && i < len(r.subscriberDecorators) ==> r.subscriberDecorators[i] != nil
+//@   callee SUB = h.subscriber.Subscribe
+//@   maypanic
+//@   ensures !r.isRunning ==> result != nil && calls(SUB) == old(calls(SUB)) [refused-when-the-router-is-not-running]
+//@   ensures result == nil ==> (forall k string :: has(r.handlers, k) ==> r.handlers[k].started) [every-registered-handler-holds-its-subscription]
+//@   assert @call:h.subscriber.Subscribe: !h.started && goodctx(ctx) [a-started-handler-is-never-subscribed-again]
+//@   assert @close:h.startedCh: h.started && h.messagesCh == ret(SUB, 0, calls(SUB) - 1) && h.stopFn != nil && h.stopped != nil [stop-and-stopped-usable-once-started-is-observable]
+//@   inv loop 1: r.handlers != nil && (forall k string :: has(r.handlers, k) ==> r.handlers[k] != nil && r.handlers[k].name == k && r.handlers[k].startedCh != nil && (!r.handlers[k].started ==> !closed(r.handlers[k].startedCh))) [registered-handlers-stay-well-formed]
+//@   inv loop 1: forall k string :: visited(k) && has(r.handlers, k) ==> r.handlers[k].started [visited-handlers-are-started]
+//@   panics-ensures calls(SUB) >= old(calls(SUB))
+//@   modifies field(handler.publisher), field(handler.subscriber), field(handler.messagesCh), field(handler.started), field(handler.stopFn), field(handler.stopped)
+
+//@ spec goodctx(c context.Context) bool := c != nil
